@@ -102,8 +102,11 @@ Definition loco_set_cur_pwr_max_out (l : Loco) (dt : F) : res Loco :=
            ls_energy_out := ls_energy_out s; ls_energy_aux := ls_energy_aux s |}).
 
 (* Locomotive::solve_energy_consumption *)
+(* Err 803 (/repo fix: the published limit binds a locomotive on its own just as it binds it inside a consist):
+   with limit checking on, the power asked of the locomotive exceeds the limit it published for this step *)
 Definition loco_solve (l : Loco) (req dt : F) (engine_on : bool) : res Loco :=
   let s := lc_state l in
+  let? _ := ensure (negb (lc_assert_limits l) || almost_le req (ls_pwr_out_max s) eps8) 803 in
   let? t := match lc_type l with
             | PConv c => let? c' := conv_solve c req dt engine_on (ls_pwr_aux s) (lc_assert_limits l)
                          in Ok (PConv c')
